@@ -91,6 +91,8 @@ def run(check):
                 continue
             for pos, scope in (("field", FIELD_CONV.match(s_)), ("variant", upper_camel(s_))):
                 want = impl_serde[(pos, rule, s_)]
+                if "panic" in want:
+                    continue        # serde_derive itself fails (compile error in the user's crate): nothing to agree with
                 if got != want and (scope or model_ts[(rule, s_)] == model_serde[(pos, rule, s_)]):
                     out.append((pos, rule, s_, got, want))
         out.sort(key=lambda t: (len(t[2]), t[2]))
@@ -122,7 +124,7 @@ def run(check):
         if got != want:
             check.known(kid, {"position": pos, "rule": rule, "ident": s_, "typeshare": got, "serde": want})
     n_div = sum(1 for (rule, s_), got in impl_ts.items() if rule in RULES
-                for pos in ("field", "variant") if got != impl_serde[(pos, rule, s_)])
+                for pos in ("field", "variant") if "panic" not in impl_serde[(pos, rule, s_)] and got != impl_serde[(pos, rule, s_)])
     check.extra["divergences_from_serde_outside_conventional_names"] = n_div
     check.exhaustive = True
     check.extra["exhaustive_scope"] = "strings of length <= %d over 6 class representatives" % maxlen
